@@ -221,6 +221,25 @@ def one_ir(ctx, no, tie, rng, size, want):
                                      "exception": type(e).__name__},
                     "the IR loaded from a saved file cannot be saved again / "
                     "inspected: %s: %s" % (type(e).__name__, str(e)[:80]))
+    if getattr(tie, "wire", None) is not None:
+        # end to end: the model's whole-file loader on the (canonically
+        # ordered) saved file vs the real loader; the model's whole-file
+        # writer read by the real loader
+        try:
+            cmsg = canonical_order(parse_file(gtirb, raw1))
+            rawc = raw1[:8] + cmsg.SerializeToString(deterministic=True)
+            irc = load(gtirb, rawc)
+            Vc = irdump.dump_irv(gtirb, irc, msg_aux_bytes(gtirb, cmsg, irc))
+            tie.wire.add_file("ir %d" % no, rawc, "ok " + " ".join(Vc))
+
+            def load_dump(body_and_header):
+                i2 = load(gtirb, body_and_header)
+                m2 = parse_file(gtirb, body_and_header)
+                return irdump.dump_irv(gtirb, i2,
+                                       msg_aux_bytes(gtirb, m2, i2))
+            tie.wire.add_save("ir %d" % no, V0, load_dump)
+        except (Exception, core.ImplTimeout):   # noqa (judged above)
+            ctx.count("pbwire:file-tie-skipped")
     ctx.evaluations += 1
     nn = len(w0.nodes)
     ctx.count("nodes:%s" % ("<10" if nn < 10 else "<30" if nn < 30 else
